@@ -47,7 +47,9 @@ func (c *Ctx) libraryFunc(fn *ssa.Function) (string, bool) {
 		}
 		switch root.Name() {
 		case "Parse", "ParseDir", "ParseFile":
-			return pkg, false // file-system front end of a command-line tool
+			// file-system front end of a command-line tool: in scope for the module's own package-level state (two
+			// conversions running side by side share its tables), not for the process-wide streams it reports to
+			return pkg + "#frontend", true
 		}
 	}
 	return pkg, pkg != "?"
@@ -102,7 +104,11 @@ func ruleC18(c *Ctx) {
 		}
 		name := c.P.FuncName(fn)
 		bad := 0
+		scope, _ := c.libraryFunc(fn)
 		for _, w := range a.WritesOf(fn) {
+			if strings.HasSuffix(scope, "#frontend") && !(w.Root.Kind == "global" && globals[w.Root.Name]) {
+				continue
+			}
 			switch w.Root.Kind {
 			case "global":
 				if strings.Contains(w.Root.Name, "init$guard") {
